@@ -62,6 +62,9 @@ class Opq:
     def _vc_asarray(self):
         return self
 
+    def copy(self):
+        return self._op('copy')
+
     def __neg__(self):
         return self._op('neg')
 
@@ -125,9 +128,16 @@ class _R:
 YMAX = z3.Real('max_y')
 
 
+def _array_equal(a, b):
+    """np.array_equal on opaque values: either answer (the path forks when the analysed code branches on it)"""
+    if isinstance(a, Opq) or isinstance(b, Opq):
+        return SBool(cur().fresh('array_equal', B))
+    raise OutOfSubset('np.array_equal on non-opaque values')
+
+
 def np_env():
     return npspec.module(extra={'sum': _opq_aware(npspec.sum), 'exp': _opq_aware(npspec.exp), 'linalg': _LinalgSpec, 'r_': _R(),
-                                'max': lambda a: SReal(YMAX)})
+                                'max': lambda a: SReal(YMAX), 'array_equal': _array_equal})
 
 
 # ====================================================================================== stubs
@@ -158,6 +168,151 @@ def ghost_state(vc, s):
     s.cache_gid, s.cache_ver = z3.Ints('cache_gid cache_ver')
     s.gids.append(s.cache_gid)            # the cache was computed from an object that exists already
     s.cached0 = z3.Bool('rbf_is_cached')
+
+
+
+
+# ====================================================================================== whole state: what the fast path reads
+# Which attributes of self the fast path reads is decided from the REAL class in the tree (AST scan, per run): everything loaded from
+# `self` in predict / predictive_gradients and in the methods of the class they call (transitively).  Documented state: _gp, the flags,
+# input_dim, and the cached fields (= whatever _cache_RBF_kernel assigns; valid iff INV).  Configuration = attributes assigned in __init__
+# only.  Anything else that some other method assigns is a MEMO attribute (an edit introduced it): it gets a ghost origin like the cache,
+#
+#     INV2(A):  A holds a reset value (None / a constant)  or  A was computed from the current _gp at its current hyper-parameters
+#
+# which every reader may rely on and every writer of _gp / of the hyper-parameters (update, optimize) must re-establish.  Reading a memo
+# taints the path (pyvc README: over-approximated state): the edit may keep the memo valid by a mechanism INV2 does not describe, so a
+# refuted clause is a VIOLATION only with a native failing history (bounded/c10.py run_history), otherwise undecided.
+DOCUMENTED = ('_gp', 'is_sampling', '_kernel_is_default', '_rbf_is_cached', 'input_dim')
+FAST_ENTRY = ('predict', 'predictive_gradients')
+_scan_cache = {}
+
+
+def scan_class(vc):
+    """-> dict(memo=[names], cached=[names], read=[names]) of the real GPyRegression in the tree under analysis"""
+    import ast
+    from pyvc import instrument
+    path = 'elfi/methods/bo/gpy_regression.py'
+    src, tree = instrument._parse(path, vc.repo)
+    key = hash(src)
+    if key in _scan_cache:
+        return _scan_cache[key]
+    cls = [n for n in tree.body if isinstance(n, ast.ClassDef) and n.name == 'GPyRegression'][0]
+    methods = {f.name: f for f in cls.body if isinstance(f, ast.FunctionDef)}
+    loads, stores = {}, {}
+    for name, f in methods.items():
+        me = f.args.args[0].arg if f.args.args else None
+        L, S = set(), set()
+        for x in ast.walk(f):
+            if isinstance(x, ast.Attribute) and isinstance(x.value, ast.Name) and x.value.id == me:
+                (L if isinstance(x.ctx, ast.Load) else S).add(x.attr)
+            if isinstance(x, ast.AugAssign) and isinstance(x.target, ast.Attribute) and isinstance(x.target.value, ast.Name) and x.target.value.id == me:
+                L.add(x.target.attr)
+            if isinstance(x, ast.Call) and isinstance(x.func, ast.Name) and x.func.id in ('getattr', 'setattr', 'hasattr', 'vars') and x.args and \
+                    isinstance(x.args[0], ast.Name) and x.args[0].id == me:
+                L.add('*')                   # reflective access: not analysable by this scan
+        loads[name], stores[name] = L, S
+    reach, todo = set(), [m for m in FAST_ENTRY if m in methods]
+    while todo:
+        m = todo.pop()
+        if m in reach:
+            continue
+        reach.add(m)
+        todo.extend(a for a in loads[m] if a in methods)
+    read = set().union(*[loads[m] for m in reach]) - set(methods) if reach else set()
+    cached = set(stores.get('_cache_RBF_kernel', ())) - set(DOCUMENTED)
+    elsewhere = set().union(*[stores[m] for m in methods if m not in ('__init__', '_cache_RBF_kernel')] or [set()])
+    memo = sorted(a for a in read if a in elsewhere and a not in DOCUMENTED and a not in CACHE_FIELDS)
+    out = dict(memo=memo, cached=sorted(cached - set(memo)), read=sorted(read), reflective='*' in read)
+    _scan_cache[key] = out
+    return out
+
+
+def _is_reset_value(v):
+    return v is None or (isinstance(v, (bool, int, float, str)) and not isinstance(v, Sym)) or (isinstance(v, (tuple, list, dict, set, frozenset)) and len(v) == 0)
+
+
+def _opq_leaves(v):
+    """leaves of a value the analysed code stores into a memo (opaque values, tuples / lists of them) -> set, or None if something else is inside"""
+    if isinstance(v, Opq):
+        return v.leaves()
+    if isinstance(v, (tuple, list)):
+        out = set()
+        for e in v:
+            l = _opq_leaves(e)
+            if l is None:
+                return None
+            out |= l
+        return out
+    return None
+
+
+ALLOWED_LEAVES = {'x', 'gp.X'}
+
+
+def memo_members(vc, s):
+    """property objects (getter + setter) for the memo attributes of the tree + their ghost entry state in s.memo"""
+    info = scan_class(vc)
+    s.scan = info
+    s.memo = {}
+    members = {}
+    for A in info['memo']:
+        st = dict(none=z3.Bool('memo.%s.is_reset' % A), gid=z3.Int('memo.%s.gid' % A), ver=z3.Int('memo.%s.ver' % A), written=False, value=None)
+        s.gids.append(st['gid'])
+        s.memo[A] = st
+
+        def get(self_, A=A, st=st):
+            if st['written']:
+                return st['value']
+            vc.taint('content of the memo attribute `%s` (not a documented cache field) left by earlier calls' % A)
+            if vc.branch(st['none']):
+                return None
+            gp = self_._gp
+            vc.oblige('call-pre[memo %s read while it holds values computed from the current _gp]' % A,
+                      z3.BoolVal(False) if gp is None else z3.And(st['gid'] == gp.gid, st['ver'] == gp.ver))
+            return Opq('cache.memo.' + A)
+
+        def set_(self_, v, A=A, st=st):
+            st['written'], st['value'] = True, v
+            gp = getattr(self_, '_gp', None)
+            if _is_reset_value(v):
+                st['none'] = z3.BoolVal(True)
+                return
+            st['none'] = z3.BoolVal(False)
+            lv = _opq_leaves(v)
+            if lv is not None and gp is not None and all(l in ALLOWED_LEAVES or l.startswith('cache.') for l in lv):
+                st['gid'], st['ver'] = gp.gid, gp.ver          # computed from the query, the evidence and VALID cached fields (their reads were obliged)
+            else:
+                st['gid'], st['ver'] = vc.fresh_int('memo.%s.gid_unknown' % A), vc.fresh_int('memo.%s.ver_unknown' % A)
+        members[A] = property(get, set_)
+    return members
+
+
+def inv2(self_, s):
+    """INV2 over the CURRENT ghost state of every memo attribute"""
+    gp = self_._gp
+    out = []
+    for A, st in s.memo.items():
+        out.append(st['none'] if gp is None else z3.Or(st['none'], z3.And(st['gid'] == gp.gid, st['ver'] == gp.ver)))
+    return z3.And(*out) if out else z3.BoolVal(True)
+
+
+def whole_state_clause(self_, s, when):
+    names = ', '.join(s.memo) if s.memo else 'none in this tree'
+    if s.memo:
+        cur().taint('memo attributes %s: validity described by INV2 only' % names)
+    ok = z3.BoolVal(False) if s.scan.get('reflective') else inv2(self_, s)
+    return ('whole state %s: every attribute of self that the fast path reads is _gp, a flag, configuration set in __init__, a cached field guarded by '
+            '_rbf_is_cached, or a memo attribute that is reset or was (re)computed from the current _gp and its current hyper-parameters '
+            '[memo attributes found in the tree: %s]' % (when, names), ok)
+
+
+def havoc_memo_by_callee(vc, self_, s, who):
+    """a callee under contract (optimize) re-establishes INV2: any new ghost state satisfying it"""
+    for A, st in s.memo.items():
+        st['written'] = False
+        st['none'], st['gid'], st['ver'] = vc.fresh('memo.%s.is_reset_after_%s' % (A, who), B), vc.fresh_int('memo.%s.gid_after_%s' % (A, who)), vc.fresh_int('memo.%s.ver_after_%s' % (A, who))
+    vc.assume(inv2(self_, s))
 
 
 class _Base(Contract):
@@ -222,9 +377,11 @@ class FastPathProtocol(_Base):
                 s.reads.append(name)
                 return Opq('cache.' + name)
             return get
+        members = memo_members(vc, s)
+        members['_cache_RBF_kernel'] = cache_rbf
         s.self = make_object('GPyRegressionStub', attrs=dict(input_dim=SInt(d), _gp=gp, is_sampling=SBool(s.sampling0), _kernel_is_default=SBool(s.default0),
                                                              _rbf_is_cached=SBool(s.cached0)),
-                             methods=dict(_cache_RBF_kernel=cache_rbf), properties={f: field(f) for f in CACHE_FIELDS})
+                             methods=members, properties={f: field(f) for f in tuple(CACHE_FIELDS) + tuple(c for c in s.scan['cached'] if c not in CACHE_FIELDS)})
         kw = {}
         if self.which == 'predict':
             s.noiseless = vc.fork_values('noiseless', [False, True])
@@ -233,7 +390,7 @@ class FastPathProtocol(_Base):
         return s, (s.self, s.x), kw
 
     def requires(self, s):
-        return [('INV', inv(s.self, s))]
+        return [('INV', inv(s.self, s)), ('INV2', inv2(s.self, s))]
 
     def ensures(self, s, result):
         fast = z3.And(s.sampling0, s.default0)
@@ -241,13 +398,14 @@ class FastPathProtocol(_Base):
         if not ok_tuple:
             return [('a pair is returned', z3.BoolVal(False))]
         took_fast = not s.lib_calls
-        derived = took_fast and all(isinstance(r, Opq) and r.leaves() and r.leaves() <= ({'x', 'gp.X'} | {'cache.' + f for f in CACHE_FIELDS}) and
+        derived = took_fast and all(isinstance(r, Opq) and r.leaves() and all(l in ALLOWED_LEAVES or l.startswith('cache.') for l in r.leaves()) and
                                     any(l.startswith('cache.') for l in r.leaves()) for r in result)
         out = [('the cached algebra answers iff is_sampling and _kernel_is_default', fast == z3.BoolVal(took_fast)),
                ('fast path: a refresh of the cache happens before any cached field is read', z3.Implies(fast, z3.BoolVal(s.cache_calls in ([], [0])))),
                ('fast path: refreshed exactly when stale', z3.Implies(fast, z3.BoolVal(len(s.cache_calls) == 1) == z3.Not(s.cached0))),
                ('fast path: both answers are computed from the cached fields, the query and the evidence only', z3.Implies(fast, z3.BoolVal(derived))),
                ('INV holds at exit', inv(s.self, s)),
+               whole_state_clause(s.self, s, 'at exit'),
                ('the fitted model object is not replaced', z3.BoolVal(s.self._gp is s.gp))]
         if self.which == 'predict':
             want = 'predict_noiseless' if s.noiseless else 'predict'
@@ -487,6 +645,7 @@ class Update(_Base):
             self_._gp.ver = vc.fresh_int('ver_after_optimize')
             self_._rbf_is_cached = SBool(vc.fresh('cached_after_optimize', B))
             vc.assume(inv(self_, s))
+            havoc_memo_by_callee(vc, self_, s, 'optimize')
         if self.form == 'first':
             gp0 = None
         else:
@@ -499,15 +658,17 @@ class Update(_Base):
             s.noise0 = SArr.fresh('noise_variance', (z3.IntVal(1),))
             gp0 = new_gp(vc, s, 'gp_old', X=s.X0, Y=s.Y0, kern=kern, Gaussian_noise=make_object('GaussianStub', attrs=dict(variance=s.noise0)), mean_function=None)
         s.gp0 = gp0
+        members = memo_members(vc, s)
+        members.update(_make_gpy_instance=make, _init_gp=init_gp, optimize=(inline(vc, GPR + 'optimize') if self.opt_fails else optimize))
         s.self = make_object('GPyRegressionStub', attrs=dict(input_dim=SInt(s.dm), _gp=gp0, is_sampling=SBool(s.sampling0), _rbf_is_cached=SBool(s.cached0)),
-                             methods=dict(_make_gpy_instance=make, _init_gp=init_gp, optimize=(inline(vc, GPR + 'optimize') if self.opt_fails else optimize)))
+                             methods=members)
         if self.opt_fails:
             s.self.optimizer, s.self.max_opt_iters = 'scg', SInt(z3.Int('max_opt_iters'))
         kw = {'optimize': True} if 'optimize' in self.form else {}
         return s, (s.self, s.x, s.y), kw
 
     def requires(self, s):
-        out = [s.m >= 1, s.dm >= 1, ('INV', inv(s.self, s))]
+        out = [s.m >= 1, s.dm >= 1, ('INV', inv(s.self, s)), ('INV2', inv2(s.self, s))]
         if self.form != 'first':
             out.append(s.n0 >= 1)
         return out
@@ -531,7 +692,8 @@ class Update(_Base):
                 ('the new evidence is appended after the old one, in order',
                  forall_range(0, m, lambda i: z3.And(Y.at(n0 + i, 0) == s.yat(i), forall_range(0, d, lambda c: X.at(n0 + i, c) == s.x.at(i, c), 'c')), 'i')),
                 ('hyper-parameters are optimised iff asked for', z3.BoolVal(len(s.opt_calls) == (1 if 'optimize' in self.form else 0) and all(g is gp for g in s.opt_calls))),
-                ('INV re-established: _rbf_is_cached => the cache was computed from the current _gp', inv(o, s))]
+                ('INV re-established: _rbf_is_cached => the cache was computed from the current _gp', inv(o, s)),
+                whole_state_clause(o, s, 'after update')]
         if self.opt_fails:
             out.append(('a numerical failure of the GP optimiser is absorbed: the cache is marked stale (and the evidence above is intact)', z3.Not(_b(o._rbf_is_cached))))
         return out
@@ -559,18 +721,20 @@ class Optimize(_Base):
         type(gp).optimize = gp_optimize
         s.gp = gp
         s.self = make_object('GPyRegressionStub', attrs=dict(_gp=gp, optimizer='scg', max_opt_iters=SInt(z3.Int('max_opt_iters')),
-                                                             is_sampling=SBool(z3.Bool('is_sampling')), _rbf_is_cached=SBool(s.cached0)))
+                                                             is_sampling=SBool(z3.Bool('is_sampling')), _rbf_is_cached=SBool(s.cached0)),
+                             methods=memo_members(vc, s))
         return s, (s.self,), {}
 
     def requires(self, s):
-        return [('INV', inv(s.self, s))]
+        return [('INV', inv(s.self, s)), ('INV2', inv2(s.self, s))]
 
     def ensures(self, s, result):
         o = s.self
         return [('the GP library optimiser runs once with the configured optimiser and iteration limit',
                  z3.BoolVal(len(s.calls) == 1 and s.calls[0][0] == 'scg' and s.calls[0][1] is o.max_opt_iters and not s.calls[0][2])),
                 ('the model object (hence the evidence) is kept', z3.BoolVal(o._gp is s.gp)),
-                ('INV re-established: _rbf_is_cached => the cache was computed from the current hyper-parameters', inv(o, s))] + \
+                ('INV re-established: _rbf_is_cached => the cache was computed from the current hyper-parameters', inv(o, s)),
+                whole_state_clause(o, s, 'after optimize')] + \
             ([('a numerical failure of the GP optimiser is absorbed (no exception escapes) and the cache is marked stale', z3.Not(_b(o._rbf_is_cached)))] if self.fails else [])
 
 
